@@ -381,7 +381,7 @@ func runCase(id int, d Defaults, c *Case) {
 		return strings.Join(ps, "|")
 	}
 	if prop == "C14" {
-		hx.Printf("sobs %d cells=%s resw=%s gmw=%s assume=%s stats=%s bin=%s\n", id, sortJoin(cellParts), sortJoin(reswParts), sortJoin(gmParts), sortJoin(asParts), statBad, binState)
+		hx.Printf("sobs %d cells=%s resw=%s gmw=%s assume=%s stats=%s colpos=%s rawcells=%s bin=%s\n", id, sortJoin(cellParts), sortJoin(reswParts), sortJoin(gmParts), sortJoin(asParts), statBad, strings.ReplaceAll(colPosCheck(run), " ", "_"), rawCellsDigest(run, s, specsOK), binState)
 	} else {
 		schedCase(id, dir, c, args, run)
 	}
@@ -453,5 +453,12 @@ func main() {
 	for i := 0; i < n; i++ {
 		do(id, genCase(r, hx.Tier() == "thorough" && i%2 == 0))
 		id++
+		if prop == "C15" && i%10 == 0 {
+			// concurrent use of the public Tidy / Reader API on fresh units
+			if idx >= start {
+				tidyFamily(100000+id, idx)
+			}
+			idx++
+		}
 	}
 }
